@@ -563,13 +563,28 @@ func Gen(r *rand.Rand, o GenOpts) []string {
 	for _, p := range policy {
 		add(append([]string{"S", fmt.Sprint(p.Epoch), fmt.Sprint(p.Block)}, vwTok(p.Vals)...)...)
 	}
-	// ApplyEvent listener policy of the application (not for C09: its reference instance starts mid-run)
+	// application-side options: "L mode n flags"
+	//   mode: ApplyEvent listener policy (not for C09: its reference instance starts mid-run);
+	//         3 = the application installs no BeginBlock at all (no blocks, no sealing)
+	//   flags: 1 = EndBlock is nil on the blocks that do not seal; 2 = one-byte vector caches in the index
+	lmode, ln, lflags := 0, 0, 0
 	if o.Mix != "C09" && ((o.Mix == "C02" && r.Intn(3) == 0) || r.Intn(8) == 0) {
 		if r.Intn(2) == 0 {
-			add("L", "1", fmt.Sprint(2+r.Intn(4)))
+			lmode, ln = 1, 2+r.Intn(4)
 		} else {
-			add("L", "2", "0")
+			lmode = 2
 		}
+	} else if o.Mix != "C09" && r.Intn(40) == 0 {
+		lmode = 3
+	}
+	if r.Intn(4) == 0 {
+		lflags |= 1
+	}
+	if r.Intn(4) == 0 {
+		lflags |= 2
+	}
+	if lmode != 0 || lflags != 0 {
+		add("L", fmt.Sprint(lmode), fmt.Sprint(ln), fmt.Sprint(lflags))
 	}
 	for _, e := range evs {
 		g := []string{"E", fmt.Sprint(e.def.N), fmt.Sprint(e.def.Epoch), fmt.Sprint(e.def.Creator), fmt.Sprint(e.def.Seq),
